@@ -152,11 +152,11 @@ Proof.
 Qed.
 
 Theorem plain_snapshot_runs_as_its_source_says (p : population) (w : world) (fuel : nat) (evs : list event) :
-  plain_only p = true -> (seq_size (snapshot_ast p) <= fuel)%nat ->
+  plain_only p = true ->
   run_src fuel (snapshot_ast p) w = SFinished evs ->
   exists k, run_program k (compile (snapshot_ast p)) w = Finished evs.
 Proof.
-  intros Hp Hf Hr. apply (straightline_program_runs_as_its_source_says (snapshot_ast p) w fuel evs); [|exact Hf|exact Hr].
+  intros Hp Hr. apply (straightline_program_runs_as_its_source_says (snapshot_ast p) w fuel evs); [|exact Hr].
   apply plain_snapshot_is_straightline. exact Hp.
 Qed.
 
@@ -351,7 +351,7 @@ Theorem plain_snapshot_on_the_machine (p : population) (w : world) :
   exists k, run_program k (compile (snapshot_ast p)) w = Finished (replay_events p ++ [EvFlush]).
 Proof.
   intros Hpl Hp.
-  set (fuel := (seq_size (snapshot_ast p) + 6 * length p + 6)%nat).
-  apply (plain_snapshot_runs_as_its_source_says p w fuel); [exact Hpl|unfold fuel; lia|].
+  set (fuel := (6 * length p + 6)%nat).
+  apply (plain_snapshot_runs_as_its_source_says p w fuel); [exact Hpl|].
   apply plain_snapshot_semantics; [exact Hp|unfold fuel; lia].
 Qed.
